@@ -12,6 +12,9 @@ hvars == <<vars, hist>>
 MCEvents == {"e1", "e2", "e3"}
 MCReg == {"e1", "e2"}
 MCPrios == {-1, 0, 5}
+\* the empty string is a legal event name too (simulation and recorded traces)
+MCEventsE == {"e1", "e2", "e3", ""}
+MCRegE == {"e1", "e2", ""}
 MCSpawns == {NoSpawn, [ev |-> "e1", prio |-> 5], [ev |-> "e2", prio |-> 0]}
 NoSpawns == {NoSpawn}
 
@@ -19,7 +22,7 @@ HInit == Init /\ hist = <<>>
 \* a reduced operation menu keeps the number of sequences enumerable
 HNext == /\ Len(hist) < Depth
          /\ \/ \E e \in RegEvents, p \in Prios, st \in BOOLEAN, sp \in Spawns : Add(e, p, st, sp)
-            \/ \E e \in Events : Dispatch(e)
+            \/ \E e \in Events, pre \in BOOLEAN : Dispatch(e, pre)
             \/ \E e \in RegEvents : GetListeners(e)
             \/ GetAll
          /\ hist' = Append(hist, last')
